@@ -61,7 +61,8 @@ theorem toInt_add_small (a b : Int64) (h1 : -2 ^ 63 ≤ a.toInt + b.toInt) (h2 :
 /-- **One re-entry of FORStatement::doit, for ANY body** (also one that assigns the control variable): after a body run that
 ends normally or with `continue`, with the control variable then holding `cur`, the loop ends iff `cur + step` — computed on
 mathematical integers — leaves `[min, max]` in the direction of the step; otherwise the variable becomes `cur + step` (which
-then cannot have wrapped) and the loop re-enters. This is the model of the repaired increment (statement_for.cpp). -/
+then cannot have wrapped) and the loop re-enters. This is the model of the repaired increment (statement_for.cpp). (A null in the
+control variable: `forLoop_null_iterator`.) -/
 theorem forLoop_iteration (body : EvalM Flow) (v : String) (min max step : Int64) (k : Nat) (s s1 : St) (r : Flow)
     (cur : Int64) (hb : body s = (.ok r, s1)) (hr : r = .norm ∨ r = .cont) (hv : lookupVar s1.vars v = .int cur) :
     forLoop body v min max step (k + 1) s =
@@ -69,17 +70,34 @@ theorem forLoop_iteration (body : EvalM Flow) (v : String) (min max step : Int64
       then (.ok .norm, s1)
       else forLoop body v min max step k { s1 with vars := setVar s1.vars v (.int (cur + step)) } := by
   have hasInt : (Val.int cur).asInt = .ok cur := rfl
+  have hnn : (Val.int cur).isNull = false := rfl
   rcases hr with rfl | rfl
   all_goals
     by_cases hc : ((step > 0 && cur.toInt + step.toInt > max.toInt) || (step < 0 && cur.toInt + step.toInt < min.toInt)) = true
     · rw [if_pos hc]
       unfold forLoop
-      simp only [bind, hb, getSt, liftM, monadLift, MonadLift.monadLift, hv, hasInt, pure, modifySt, hc]
+      simp only [bind, hb, getSt, liftM, monadLift, MonadLift.monadLift, hv, hnn, Bool.false_eq_true, if_false, hasInt, pure, modifySt, hc]
       rfl
     · rw [if_neg hc]
       conv => lhs; unfold forLoop
-      simp only [bind, hb, getSt, liftM, monadLift, MonadLift.monadLift, hv, hasInt, pure, modifySt, hc]
+      simp only [bind, hb, getSt, liftM, monadLift, MonadLift.monadLift, hv, hnn, Bool.false_eq_true, if_false, hasInt, pure, modifySt, hc]
       rfl
+
+/-- **A body that sets the control variable to null** (`for k in 1 to 3 loop k = int(); end loop`): after a body run that ends normally
+or with `continue`, if the control variable holds a null — typed or untyped —, the loop ends with the BLOC error NOT_INTEGER, from the
+state the body left; nothing is dereferenced and no further iteration runs. (FORStatement::doit, re-entry branch, after the repair
+`if (data->iterator->isNull()) throw RuntimeError(EXC_RT_NOT_INTEGER)`; before it: a null-pointer dereference.) -/
+theorem forLoop_null_iterator (body : EvalM Flow) (v : String) (min max step : Int64) (k : Nat) (s s1 : St) (r : Flow)
+    (hb : body s = (.ok r, s1)) (hr : r = .norm ∨ r = .cont) (hn : (lookupVar s1.vars v).isNull = true) :
+    forLoop body v min max step (k + 1) s = (.err Gen.EXC_RT_NOT_INTEGER [], s1) := by
+  rcases hr with rfl | rfl
+  all_goals
+    unfold forLoop
+    simp only [bind_app, hb, getSt_app, liftM_app, hn, if_true]
+
+example : forLoop (fun s => (.ok .norm, { s with vars := setVar s.vars "k" (.null Ty.int) })) "k" 1 3 1 5 { vars := [("k", .int 1)] } =
+    (.err Gen.EXC_RT_NOT_INTEGER [], { vars := [("k", .null Ty.int)] }) :=
+  forLoop_null_iterator _ "k" 1 3 1 4 _ _ .norm rfl (Or.inl rfl) (by decide +kernel)
 
 def QuietAt (body : EvalM Flow) (v : String) (s : St) : Prop :=
   ((body s).1 = .ok .norm ∨ (body s).1 = .ok .cont) ∧ lookupVar (body s).2.vars v = lookupVar s.vars v
@@ -475,6 +493,39 @@ theorem exec_for_terminates (funcs : List Func) (depth fuel : Nat) (v : String) 
 /-- the former endless loop: two iterations, ends normally, the control variable ends at INT64_MAX -/
 example : (let r := exec [] 0 10 (.forS "i" (.lit (.int 9223372036854775806)) (.lit (.int 9223372036854775807)) none .auto [.printS [.lit (.str [120])]]) {}
     (r.1, r.2.out.length, lookupVar r.2.vars "i" == .int 9223372036854775807)) = (.ok .norm, 4, true) := by decide +kernel
+
+/-- The requested direction can be met: the `for` header prescribes at least one iteration. -/
+def forEntered (bi ei : Int64) (dir : Dir) : Bool :=
+  if ei > bi then dir != .desc else !(dir == .asc && ei != bi)
+
+/-- **Statement level: a `for` whose body sets the control variable to null raises NOT_INTEGER** (`for k in 1 to 3 loop k = int(); end loop;`):
+with the header evaluating to integers `bi`, `ei`, step `st ≥ 1` and the direction met, if the first run of the body (from the state with
+the control variable set to `bi`) ends normally or with `continue` and leaves a null in the control variable, the statement fails with
+the BLOC error NOT_INTEGER from the state that body run left — an ordinary, catchable-by-nobody runtime error reported to the host, not a
+crash (statement_for.cpp after the repair). Later iterations behave the same by `forLoop_null_iterator`. -/
+theorem exec_for_null_iterator (funcs : List Func) (depth fuel : Nat) (v : String) (b e : Expr) (step : Option Expr) (dir : Dir)
+    (body : List Stmt) (s s1 s2 s3 s4 : St) (bi ei st : Int64) (r : Flow) (hbud : s.budget ≠ 0)
+    (hb : eval funcs depth (fuel + 1) b (tick s) = (.ok (.int bi), s1))
+    (he : eval funcs depth (fuel + 1) e s1 = (.ok (.int ei), s2))
+    (hs : StepEval funcs depth (fuel + 1) step s2 st s3) (hst : ¬ st < 1)
+    (hdir : forEntered bi ei dir = true)
+    (hbody : execList funcs depth (fuel + 1) body { s3 with vars := setVar s3.vars v (.int bi) } = (.ok r, s4))
+    (hr : r = .norm ∨ r = .cont) (hn : (lookupVar s4.vars v).isNull = true) :
+    exec funcs depth (fuel + 2) (.forS v b e step dir body) s = (.err Gen.EXC_RT_NOT_INTEGER [], s4) := by
+  rw [exec_for_enter funcs depth (fuel + 1) v b e step dir body s s1 s2 s3 bi ei st hbud hb he hs hst]
+  unfold forEntered at hdir
+  by_cases h : ei > bi
+  · simp only [h, if_true, bne_iff_ne, ne_eq] at hdir
+    have hd : (dir == Dir.desc) = false := by simpa using hdir
+    simp only [h, if_true, hd, Bool.false_eq_true, if_false]
+    exact forLoop_null_iterator _ v bi ei st fuel _ s4 r hbody hr hn
+  · simp only [h, if_false, Bool.not_eq_true'] at hdir
+    simp only [h, if_false, hdir, Bool.false_eq_true]
+    exact forLoop_null_iterator _ v ei bi (0 - st) fuel _ s4 r hbody hr hn
+
+/-- `for k in 1 to 3 loop k = int(); end loop; print "after";`: NOT_INTEGER, nothing printed, `k` is the null the body stored -/
+example : (let r := execList [] 0 10 [.forS "k" (.lit (.int 1)) (.lit (.int 3)) none .auto [.letS "k" (.null Ty.int |> Expr.lit)], .printS [.lit (.str [97])]] {}
+    (r.1, r.2.out, lookupVar r.2.vars "k" == .null Ty.int)) = (.err Gen.EXC_RT_NOT_INTEGER [], [], true) := by decide +kernel
 
 /-- A null first bound (typed or untyped): zero iterations; the limit, the step and the body are not even evaluated; the state is the one
 the evaluation of the bound left (for a literal or a variable: unchanged apart from the work budget). -/
